@@ -177,6 +177,10 @@ func (ms *Modules) add(n Node) error {
 		return fmt.Errorf("duplicate %s %s at %s and %s", kind, fullName, Source(o), Source(n))
 	}
 	m[fullName] = mod
+	// What a namespace denotes may change with every module that is added.
+	ms.nsMu.Lock()
+	ms.byNS = map[string]*Module{}
+	ms.nsMu.Unlock()
 	if fullName == name {
 		return nil
 	}
@@ -244,8 +248,13 @@ func (ms *Modules) FindModuleByNamespace(ns string) (*Module, error) {
 		return m, nil
 	}
 	var found *Module
-	for _, m := range ms.Modules {
+	for _, m := range sortedModules(ms.Modules) {
 		if m.Namespace.Name == ns {
+			// Several revisions of one module share its namespace; the
+			// namespace then denotes the one that the bare name does.
+			if cur := ms.Modules[m.Name]; cur != nil && cur.Namespace.Name == ns {
+				m = cur
+			}
 			switch {
 			case m == found:
 			case found != nil:
